@@ -29,7 +29,7 @@ def jobs_for(tier):
     if tier == 'quick':
         tpls = tpls + corpus.generated(quick=True, exclude={'real'})
     for t in tpls:
-        jobs.append(dict(id='%s/oer' % t['id'], template=t['id'], codec='oer', tier=tier, numeric_enums=False))
+        jobs.append(dict(id='%s/oer' % t['id'], template=t['id'], codec='oer', tier=corpus.job_tier(t, tier), numeric_enums=False))
     jobs.append(dict(id='kernel/oer-int-range', kernel='oer-int-range', tier=tier, codec='oer', numeric_enums=False, W=256))
     for k in ('set-symbolic-tags', 'choice-symbolic-tags'):
         jobs.append(dict(id='kernel/' + k, kernel=k, tier=tier, codec='oer', numeric_enums=False, W=256))
